@@ -47,6 +47,11 @@ M = {
             if hasattr(v, "__info__") and "params_key_for_rounding" in v.__info__:
                 functions_not_overridden[k] = v
         else:""")]),
+    "c11_revert_int64_sums": (["C11"], [(S + "aggregation_numpy.py",
+        """    elif numpy.issubdtype(column.dtype, numpy.integer):
+        # Sum in 64 bits: totals of narrow integer columns (int8, int16, ...) overflow.
+        column = column.astype(numpy.int64)
+    out_on_hh""", "    out_on_hh")]),
     # ---- C04
     "c04_auto_sums_from_targets_only": (["C04"], [(S + "functions_loader.py",
         """    potential_agg_cols = set(
